@@ -1003,6 +1003,21 @@ func (a *Adv) DoubleSpendProbes() int {
 				}
 			}
 		}
+		// ... or listed once more among the contracts that expire in this block: in the honest block as it is, and in a
+		// block of the v2 format that carries no v1 transaction at all (the supplement is the same kind of object there)
+		{
+			el := copyFC(e)
+			relist := func(bs *consensus.V1BlockSupplement) {
+				bs.ExpiringFileContracts = append(bs.ExpiringFileContracts, el)
+			}
+			if a.emit(CloneBlock(a.Honest), "expire-after-resolve/v1-supplement", "reject", nil, relist) {
+				n++
+			}
+			bare := types.Block{Timestamp: a.Honest.Timestamp, MinerPayouts: []types.SiacoinOutput{{Address: types.Address{0xAA}}}, V2: &types.V2BlockData{}}
+			if a.emit(bare, "expire-after-resolve/v1-supplement/v2-format-block-without-v1-transactions", "reject", nil, relist) {
+				n++
+			}
+		}
 		if fc.WindowStart >= 1 && fc.WindowStart <= a.Child && fc.WindowStart-1 < uint64(len(a.G.C.Store.CI)) {
 			bb := NewBuilder(t, a.G.C, world)
 			wid := a.G.C.Store.CI[fc.WindowStart-1].ChainIndex.ID
